@@ -14,7 +14,7 @@ def gen_cases(ctx):
     r = ctx.rng
     cases = srv.load_corpus(ctx, 'C01') + srv.load_corpus(ctx, 'C02')
     cases += srv.boundary_cases('tcp') + srv.boundary_cases('rtu')
-    n = 1100 if ctx.quick() else 12000
+    n = 2200 if ctx.quick() else 12000
     for _ in range(n):
         link = 'tcp' if r.random() < 0.55 else 'rtu'
         auth = srv.gen_auth(r) if r.random() < 0.4 else None
@@ -23,12 +23,7 @@ def gen_cases(ctx):
 
 
 def run(ctx):
-    ctx.translate(['Consts.v', 'AuthzTable.v'])
-    models_ok = ctx.build_models(srv.MODULES)
-    ctx.prove()
-    if ctx.tier == 'thorough':
-        ctx.coqchk()
-    if not ctx.build_harness() or not models_ok:
+    if not srv.prepare(ctx):
         return
     if ctx.replay and 'cases' in ctx.replay:
         cases = [srv.case_from_json(c) for c in ctx.replay['cases']]
@@ -37,8 +32,7 @@ def run(ctx):
     impl, both, n_spec, n_model = srv.compare(ctx, cases, 'calls', 'handler-calls', 'handler call log')
     for name, sel in (('without-authorization', lambda c: c[2] is None), ('with-authorization', lambda c: c[2] is not None)):
         idx = [k for k, c in enumerate(cases) if sel(c)]
-        bad = [k for k in idx if srv.observe(impl[k], 'calls') != srv.observe(both[k][1], 'calls')
-               or srv.observe(impl[k], 'calls') != srv.observe(both[k][0], 'calls')]
+        bad = [k for k in idx if srv.differs(impl[k], both[k], 'calls')]
         ctx.oblige(f'correspondence:handler-call-log:{name}', not bad, f'{len(bad)} of {len(idx)} sessions differ')
     # the iterator handed to a write-multiple handler yields consecutive addresses from `start`, `count` of them
     bad_items = []
